@@ -176,6 +176,7 @@ func extractC02(c *Ctx) {
 	extractWSEpilogue(c)
 	extractWithCtxShape(c)
 	extractPrograms(c)
+	extractWSCloseOrder(c)
 }
 
 // WebSocket handler epilogue (C02): in both WebSocket ServeHTTP methods the handler must close `stream.done`
@@ -590,4 +591,50 @@ func extractPrograms(c *Ctx) {
 		}
 	}
 	c.Add("c02StreamSites", "List String", LeanStrList(sites), "", "functions of the forwarder / entry points that create an outgoing stream")
+}
+
+// Order of the connection-deadline / lock / write operations in the two functions that start the WebSocket closing
+// handshake (C02-m9, D35): tokens in source order — "SetDeadline", "Lock" (a mutex Lock), "WriteMessage",
+// "closeGracefully". The WsStall model (lean/GB/C02/WsStall.lean) needs the deadline to be armed before anything
+// that can wait for a blocked writer.
+func extractWSCloseOrder(c *Ctx) {
+	var entries, srcs []string
+	for _, x := range []struct{ file, recv, name string }{
+		{"webbridge/websocket.go", "", "closeGracefully"},
+		{"webbridge/grpcweb.go", "gRPCWebSocketStream", "sendTrailer"},
+	} {
+		label := x.name
+		if x.recv != "" {
+			label = x.recv + "." + x.name
+		}
+		var evs []string
+		src := x.file + ":?"
+		if fd := c.FuncDecl(x.file, x.recv, x.name); fd != nil && fd.Body != nil {
+			src = c.Pos(fd)
+			ast.Inspect(fd.Body, func(n ast.Node) bool {
+				call, ok := n.(*ast.CallExpr)
+				if !ok {
+					return true
+				}
+				fun := c.Src(call.Fun)
+				switch {
+				case strings.HasSuffix(fun, ".SetDeadline") || strings.HasSuffix(fun, ".SetWriteDeadline"):
+					evs = append(evs, "SetDeadline")
+				case strings.HasSuffix(fun, ".Lock"):
+					evs = append(evs, "Lock")
+				case strings.HasSuffix(fun, ".WriteMessage") || strings.HasSuffix(fun, ".WriteClose") || strings.HasSuffix(fun, ".Write"):
+					evs = append(evs, "WriteMessage")
+				case fun == "closeGracefully":
+					evs = append(evs, "closeGracefully")
+				}
+				return true
+			})
+		} else {
+			evs = []string{"<not found>"}
+		}
+		entries = append(entries, fmt.Sprintf("(%s, %s)", LeanStr(label), LeanStrList(evs)))
+		srcs = append(srcs, src)
+	}
+	c.Add("wsCloseOrder", "List (String × List String)", "["+strings.Join(entries, ", ")+"]", strings.Join(srcs, " "),
+		"source order of SetDeadline / mutex Lock / WriteMessage / closeGracefully in the functions that start the WebSocket closing handshake")
 }
